@@ -237,8 +237,18 @@ def o4_structures(tier):
     return sts
 
 
-class _MockMol:
-    pass
+def _MockMol():
+    """a molecule object for the padding functions: an uninitialised instance of a SUBCLASS of the real SecondQuantizedMolecule in which the derived read-only properties the
+    contracts prescribe (n_active_mos, active_mos, ...) are plain attributes. Methods the code under contract may delegate to resolve through the real class, whereas a duck-typed
+    stand-in breaks as soon as a method is split into helpers (false alarm found by the refactoring round)"""
+    from tangelo.toolboxes.molecular_computation.molecule import SecondQuantizedMolecule as _SQM
+
+    class _Mol(_SQM):
+        n_active_mos = n_active_electrons = n_active_sos = active_mos = frozen_mos = active_spin = n_active_ab_electrons = None
+
+        def __init__(self):
+            pass
+    return _Mol()
 
 
 @contract("C13", "O4.pad_rdms_restricted.identities", level="S", structures=o4_structures, targets=[(RD, "pad_rdms_with_frozen_orbitals_restricted")],
